@@ -64,6 +64,9 @@ REQS = [
     ('POST', lambda p: b'POST %s HTTP/1.1\r\nHost: front.test\r\nContent-Length: 4\r\nX-A: b\r\n\r\nbody' % p, b'POST', b'body'),
     ('CHUNKED', lambda p: b'POST %s HTTP/1.1\r\nHost: front.test\r\nX-A: b\r\nTransfer-Encoding: chunked\r\n\r\n2\r\nbo\r\n2\r\ndy\r\n0\r\n\r\n' % p,
      b'POST', b'body'),
+    # header names are case-insensitive: the Host field spelled as some clients / HTTP/2 front ends spell it
+    ('GET-host-lower', lambda p: b'GET %s HTTP/1.1\r\nhost: front.test\r\nx-a: b\r\n\r\n' % p, b'GET', b''),
+    ('GET-host-upper', lambda p: b'GET %s HTTP/1.1\r\nHOST: front.test\r\nX-A: b\r\n\r\n' % p, b'GET', b''),
     # an upgrade request is a request like any other as far as routing goes (the web server keeps a separate
     # route table per protocol: websocket upgrades are looked up in their own table)
     ('UPGRADE', lambda p: b'GET %s HTTP/1.1\r\nHost: front.test\r\nX-A: b\r\nConnection: Upgrade\r\nUpgrade: websocket\r\n'
@@ -80,7 +83,7 @@ def scenarios(tier):
             fa = ['--threadless', '--enable-reverse-proxy'] + (['--rewrite-host-header'] if rewrite else [])
             for path in PATHS:
                 for (rname, mk, method, body) in REQS:
-                    if tier == 'quick' and rname in ('CHUNKED', 'NOHOST', 'UPGRADE') and not tname.startswith('s1-0') and tname not in ('mixed', 's2-disjoint', 'dyn-url'):
+                    if tier == 'quick' and rname in ('CHUNKED', 'NOHOST', 'UPGRADE', 'GET-host-lower', 'GET-host-upper') and not tname.startswith('s1-0') and tname not in ('mixed', 's2-disjoint', 'dyn-url'):
                         continue
                     script = [('send', mk(path)), ('wait_idle',), ('close',)]
                     matching = []
